@@ -126,6 +126,28 @@ def scoping_cases(tier, rng):
     return out
 
 
+def sibling_cases(tier, rng):
+    """a binding made by one conditional (its cache of called condition values) must be gone in the next conditional of
+    the same block list: there the name is the callable again (expressions get it uncalled, tags call it again)"""
+    kw = {'fs': fn('FS', plain('called-FS')), 'fg': fn('FG', plain('called-FG')), 't': plain('T'),
+          'z': plain('zero', False), 'n': plain('outer-n'), 'o': obj('O', w=plain('W')),
+          'l': lst('L', [obj('I', x=plain('x1'))])}
+    first = [If([(N('fs'), [T('a')])]), If([(N('z'), [T('no')]), (N('fs'), [T('b'), V('fs')])]),
+             Unless(N('fs'), [T('u')]), Call(N('fs')), If([(N('fs'), [])], [T('e')])]
+    second = [If([(N('t'), [P('fs'), V('fs')])]), If([(X('t'), [P('fs')])], [T('e')]),
+              Unless(N('z'), [P('fs'), V('fs')]), If([(N('fs'), [P('fs')])]), Let([('q', X('fs'))], [P('q')]),
+              If([(N('fg'), [P('fs'), V('fg')])]), Call(C('fs'))]
+    out = []
+    for a in first:
+        for b in second:
+            pair = [a, T('|'), b]
+            for w in ([T('<')] + pair + [T('>')],
+                      [With(N('o'), pair)], [In(N('l'), pair)], [Let([('y', N('t'))], pair)],
+                      [If([(N('t'), pair)])], [Try(pair, [([], [T('h')])], None)]):
+                out.append(dict(prog=w + [P('fs')], src=sources(kw=dict(kw)), K=0, fk=[]))
+    return out
+
+
 def _lookup_stages(V, tier):
     from checks import c02_lookup
     return c02_lookup.stages(V, tier)
@@ -133,7 +155,7 @@ def _lookup_stages(V, tier):
 
 def main(tier):
     rng = random.Random(common.seed())
-    cases = precedence_cases(tier, rng) + scoping_cases(tier, rng)
+    cases = precedence_cases(tier, rng) + scoping_cases(tier, rng) + sibling_cases(tier, rng)
     return render_common.run(
         PID, tier, cases, ['result', 'calls'], batch=3000, extra_stage=_lookup_stages,
         assumptions=['each source binds the probed name to a distinct marker (plain, logging callable, template '
@@ -145,7 +167,8 @@ def main(tier):
              'construction kw, construction mapping} x value kind x client shape x reference form (tag by name, '
              'expression probe, if-condition, let binding, expression condition); scoping: every binder '
              '(with, let, in, in mapping, in no_push_item, except handler, if cache, with only) nested to depth '
-             '2 (3 sampled / thorough) with probes before, inside and after')
+             '2 (3 sampled / thorough) with probes before, inside and after; sibling conditionals (if / unless / call followed by a '
+             'second conditional, let or expression using the same callable) at top level and inside every block kind')
 
 
 replay = render_common.replay
